@@ -219,6 +219,7 @@ func runC15(c *Ctx) {
 			L.Ok("R-C15-CLOSESEQ", "Cache.Close#order", "Clear → handshake → close channels → policy.Close → ticker.Stop → isClosed.Store(true)", ins[0].Pos())
 		}
 	})
+	closeDrainsRule(c, "R-C15-CLOSESEQ")
 	c.Group("R-C15-CLOSESEQ", "defaultPolicy.Close", func() {
 		fn := P.Fn("ristretto", "defaultPolicy", "Close")
 		L.Analysed(fname(fn))
@@ -264,6 +265,7 @@ func runC15(c *Ctx) {
 	lockedMapClearRule(c, "R-C15-CLEARSEQ")
 	clearResetParts(c, "R-C15-CLEARSEQ", "cache", "metrics", "evict", "admit", "expiry")
 	sweepCursorRule(c, "R-C15-CLEARSEQ")
+	evictClearRule(c, "R-C15-CLEARSEQ")
 	metricsClearRule(c, "R-C15-CLEARSEQ") // "its capacity and metrics are reset": every counter, not most of them
 	bloomClearRule(c, "R-C15-CLEARSEQ")   // the doorkeeper is emptied completely ("as a fresh one would")
 	oneConsumerRule(c, "R-C15-CLEARSEQ")
@@ -290,4 +292,56 @@ func runC15(c *Ctx) {
 		L.Check(strings.Join(sites, ",") == want, "R-C15-GOROUTINES", "go statements", "exactly three: NewCache, newDefaultPolicy, Clear", "go statements are {"+strings.Join(sites, ",")+"}, want {"+want+"}: a goroutine nobody stops survives Close", 0)
 	})
 	handshakeRule(c, "R-C15-GOROUTINES")
+}
+
+
+// closeDrainsRule: the final drain of Close really runs. Close releases everything through its call of
+// Clear(), and Clear is a no-op on a closed cache (its own guard): so on every path to that call the
+// closed flag has not been written yet (no Store/Swap/CompareAndSwap on isClosed before it), and the
+// call is on every path past Close's guard. Shared by C04 ("no later than the return of the next Clear or
+// Close") and C15.
+func closeDrainsRule(c *Ctx, ruleID string) {
+	L, P := c.L, c.P
+	c.Group(ruleID, "Cache.Close#drain", func() {
+		fn := P.Fn("ristretto", "Cache", "Close")
+		L.Analysed(fname(fn))
+		tb := newTB(fn)
+		var clear ssa.Instruction
+		for _, ci := range callsTo(fn, "Cache.Clear") {
+			if tb.T(ci.Common().Args[0]).String() == "p[0]" {
+				clear = ci
+			}
+		}
+		if clear == nil {
+			L.Fail(ruleID, "Cache.Close#drain", "Close does not call c.Clear()", fn.Pos())
+			return
+		}
+		isFlagWrite := func(in ssa.Instruction) bool {
+			ci, ok := in.(ssa.CallInstruction)
+			if !ok {
+				return false
+			}
+			n := calleeName(ci.Common())
+			if n != "atomic.Bool.Store" && n != "atomic.Bool.Swap" && n != "atomic.Bool.CompareAndSwap" {
+				return false
+			}
+			return tb.T(ci.Common().Args[0]).String() == "addr(fld[isClosed](p[0]))"
+		}
+		// a flag write from which the Clear call is still reachable: Clear would see a closed cache
+		var early ssa.Instruction
+		eachInstr(fn, func(in ssa.Instruction) {
+			if early == nil && isFlagWrite(in) {
+				if r, _ := reach(after(in), isInstr(clear), nil, nil); r != nil {
+					early = in
+				}
+			}
+		})
+		if early != nil {
+			L.Fail(ruleID, "Cache.Close#drain", "the closed flag is written before Close calls Clear(): Clear's own closed-guard then returns at once, nothing resident or buffered is released through the callbacks and goroutines blocked in Wait stay blocked", early.Pos())
+			return
+		}
+		inert := cutSet(edgesWhere(fn, tb, "eq(p[0],c[nil])", nil, true), edgesWhere(fn, tb, "call[atomic.Bool.Load](addr(fld[isClosed](p[0])))", nil, true))
+		bad, path := mustPass(entryPos(fn), isInstr(clear), inert)
+		L.Check(bad == nil, ruleID, "Cache.Close#drain", "Clear() is called on every path past the guard, while the closed flag is still unset", "a path through Close skips the final Clear() (block path "+pathString(path)+")", instrPos(bad))
+	})
 }
